@@ -76,6 +76,12 @@ def chk_point(sec_hex, k, lite=False):
             rp = hd.node_from_priv(k, b"\x11" * 32, 2, 7, b"\x01\x02\x03\x04")
             if not lite:
                 nodes.append(("prv-parsed", BaseWallet.from_extended_key(hd.xprv(rp, hd.version_for("prv", testnet, 84))).master))
+        if not lite:
+            # a wallet whose master node was built with the OTHER network flag (plain constructor): the wallet's address methods
+            # follow the wallet's network for all five kinds alike
+            nodes.append(("pub-other-flag", PubKeyNode(key=secp.sec(pt), chain_code=b"\x11" * 32, testnet=not testnet)))
+            if k is not None:
+                nodes.append(("prv-other-flag", PrvKeyNode(key=k.to_bytes(32, "big"), chain_code=b"\x11" * 32, testnet=not testnet)))
         for nk, node in nodes:
             w = BaseWallet(master=node, testnet=testnet)
             for kind in KINDS:
@@ -88,6 +94,13 @@ def chk_point(sec_hex, k, lite=False):
         # the key object may have been PARSED from either SEC form, built from the point or from the private key: the requested
         # address form alone decides which encoding is hashed
         makers = {"parse(compressed)": lambda: PublicKey.parse(secp.sec(pt, True)), "parse(uncompressed)": lambda: PublicKey.parse(secp.sec(pt, False))}
+        # other spellings of the same point that the parser may accept (hybrid 06/07 prefix, raw 64-byte x||y): if it does, the key
+        # object is the same key - every requested form is computed from the point, not from the bytes it was parsed from
+        unc = secp.sec(pt, False)
+        for spell, raw_ in (("hybrid", bytes([6 + (pt[1] & 1)]) + unc[1:]), ("raw64", unc[1:])):
+            st_, obj_ = attempt(PublicKey.parse, raw_)
+            if st_ == "ok" and not lite:
+                makers["parse(%s)" % spell] = (lambda r_: lambda: PublicKey.parse(r_))(raw_)
         if k is not None and not lite:
             from btc_hd_wallet.keys import PrivateKey
             makers["PrivateKey.K"] = lambda: PrivateKey(k).K
